@@ -4,7 +4,7 @@
    [deps_cover g] is the assumption on the linker's input named in the config:
    a symbol used or exported across files is backed by a part dependency. *)
 From V Require Import Common.Base C10.BitSet C10.Renamer C10.Split
-  C10.BitSetProofs C10.RenamerProofs C10.ListLemmas C10.SplitProofs.
+  C10.BitSetProofs C10.RenamerProofs C10.ListLemmas C10.SplitProofs C10.OrderProofs.
 From Coq Require Import Relations.
 
 (* helpers.BitSet: HasBit after SetBit, every bit set of every size *)
@@ -29,6 +29,11 @@ Theorem chunks_partition : forall g r, split g = Some r ->
   (forall c f, In c (a_chunks a) -> In f (c_files c) -> In f (a_order a) /\ is_live a f = true).
 Proof. exact chunks_partition_all. Qed.
 Print Assumptions chunks_partition.
+
+(* and no chunk lists a file twice *)
+Theorem chunk_files_nodup : forall g r c, split g = Some r -> In c (a_chunks (r_analysis r)) -> NoDup (c_files c).
+Proof. exact chunk_files_nodup_all. Qed.
+Print Assumptions chunk_files_nodup.
 
 (* a static cross-chunk import goes to a chunk whose entry-point set strictly
    contains the importer's *)
